@@ -25,6 +25,28 @@ func (p *Prog) StaticCallees(fn *ssa.Function) []*ssa.Function {
 					out = append(out, c)
 				}
 			}
+			// function values used as operands, and the functions stored in the package-level variables this
+			// function refers to (a constructor kept in a global, e.g. sync.Pool{New: func...}): they may be called
+			// through the value
+			for _, op := range in.Operands(nil) {
+				if *op == nil {
+					continue
+				}
+				switch v := (*op).(type) {
+				case *ssa.Function:
+					if p.InModule(v) && !seen[v] {
+						seen[v] = true
+						out = append(out, v)
+					}
+				case *ssa.Global:
+					for _, c := range p.globalFuncs()[v] {
+						if !seen[c] {
+							seen[c] = true
+							out = append(out, c)
+						}
+					}
+				}
+			}
 		}
 	}
 	sort.Slice(out, func(i, j int) bool { return out[i].String() < out[j].String() })
@@ -66,4 +88,56 @@ func (p *Prog) UnresolvedCalls(fn *ssa.Function) []ssa.CallInstruction {
 		}
 	}
 	return out
+}
+
+
+// globalFuncs maps each module package-level variable to the module functions stored into it (or into one of its
+// fields or elements) anywhere in the module, typically by a package initialiser.
+func (p *Prog) globalFuncs() map[*ssa.Global][]*ssa.Function {
+	if p.gfuncs != nil {
+		return p.gfuncs
+	}
+	p.gfuncs = map[*ssa.Global][]*ssa.Function{}
+	for _, fn := range p.ModFuncs() {
+		for _, b := range fn.Blocks {
+			for _, in := range b.Instrs {
+				st, ok := in.(*ssa.Store)
+				if !ok {
+					continue
+				}
+				var f *ssa.Function
+				switch v := st.Val.(type) {
+				case *ssa.Function:
+					f = v
+				case *ssa.MakeClosure:
+					f, _ = v.Fn.(*ssa.Function)
+				case *ssa.MakeInterface:
+					if mc, isC := v.X.(*ssa.MakeClosure); isC {
+						f, _ = mc.Fn.(*ssa.Function)
+					} else if ff, isF := v.X.(*ssa.Function); isF {
+						f = ff
+					}
+				}
+				if f == nil || !p.InModule(f) {
+					continue
+				}
+				addr := st.Addr
+				for {
+					switch a := addr.(type) {
+					case *ssa.FieldAddr:
+						addr = a.X
+						continue
+					case *ssa.IndexAddr:
+						addr = a.X
+						continue
+					}
+					break
+				}
+				if g, isG := addr.(*ssa.Global); isG {
+					p.gfuncs[g] = append(p.gfuncs[g], f)
+				}
+			}
+		}
+	}
+	return p.gfuncs
 }
